@@ -111,7 +111,14 @@ def _build2(case):
         v = ft.Tensor(rank_ids=ids[1:], default=dflt)
         v.setRoot(sub)
         return v, t
-    return _transform(case, t, c, rng, ids, d), t
+    r = _transform(case, t, c, rng, ids, d)
+    return (r.res, r.src) if isinstance(r, _Pair) else (r, t)
+
+
+class _Pair:
+    """a transform result together with the tensor it was applied to, when that is not the case's base tensor"""
+    def __init__(self, res, src):
+        self.res, self.src = res, src
 
 
 def _transform(case, t, c, rng, ids, d):
@@ -149,7 +156,10 @@ def _transform(case, t, c, rng, ids, d):
     if c == "flatten":
         return t.flattenRanks(depth=depth, levels=rng.randrange(1, d - depth))
     if c == "unflatten":
-        return t.flattenRanks(depth=depth, levels=1).unflattenRanks(depth=depth, levels=1)
+        # the operand of the unflatten is the flattened intermediate: it is the "source" that must still mirror
+        # its own tree afterwards
+        mid = t.flattenRanks(depth=depth, levels=1)
+        return _Pair(mid.unflattenRanks(depth=depth, levels=1), mid)
     if c == "merge":
         return t.mergeRanks(depth=depth, levels=1, merge_fn=lambda ps: ps[0])
     raise ValueError(c)
